@@ -9,8 +9,9 @@ use generic_array::GenericArray;
 use super::proto::*;
 use crate::{
     ff::{
-        Field, Fp31, Fp32BitPrime, Fp61BitPrime, MultiplyAccumulate, MultiplyAccumulator,
-        PrimeField, Serializable, U128Conversions, batch_invert,
+        Field, Fp31, Fp32BitPrime, Fp61BitPrime, GaloisField, Gf2, Gf3Bit, Gf8Bit, Gf9Bit, Gf20Bit,
+        Gf32Bit, Gf40Bit, MultiplyAccumulate, MultiplyAccumulator, PrimeField, Serializable,
+        U128Conversions, batch_invert,
     },
     secret_sharing::SharedValue,
 };
@@ -111,9 +112,93 @@ where
     }
 }
 
+// ------------------------------------------------------------------ binary fields
+// Request grammar:  c08.gf <Type> <op> <args…>
+//   add|sub|mul|addassign|subassign|mulassign a b | neg a | trunc v | tryfrom v | deser hex
+//   fromslice hex | cmp a b
+// Arithmetic responses: `<as_u128> <hex of serialize>` (value and raw store incl. padding bits).
+
+fn gf_show<G: GaloisField + Serializable>(x: G) -> String {
+    let mut buf = GenericArray::<u8, G::Size>::default();
+    x.serialize(&mut buf);
+    format!("{} {}", x.as_u128(), hex(&buf))
+}
+
+fn exec_gf<G>(op: &str, args: &[&str]) -> String
+where
+    G: GaloisField + Serializable + U128Conversions + Ord + for<'a> TryFrom<&'a [u8]>,
+{
+    let e = |s: &str| {
+        let v = s.parse::<u128>().unwrap();
+        assert!(v >> G::BITS == 0, "harness: operand {v} out of range");
+        G::truncate_from(v)
+    };
+    match op {
+        "add" => gf_show(e(args[0]) + e(args[1])),
+        "addassign" => {
+            let mut x = e(args[0]);
+            x += e(args[1]);
+            gf_show(x)
+        }
+        "sub" => gf_show(e(args[0]) - e(args[1])),
+        "subassign" => {
+            let mut x = e(args[0]);
+            x -= e(args[1]);
+            gf_show(x)
+        }
+        "mul" => gf_show(e(args[0]) * e(args[1])),
+        "mulassign" => {
+            let mut x = e(args[0]);
+            x *= e(args[1]);
+            gf_show(x)
+        }
+        "neg" => gf_show(-e(args[0])),
+        "trunc" => gf_show(G::truncate_from(args[0].parse::<u128>().unwrap())),
+        "tryfrom" => match G::try_from(args[0].parse::<u128>().unwrap()) {
+            Ok(v) => format!("ok {}", v.as_u128()),
+            Err(_) => "err".into(),
+        },
+        "deser" => {
+            let b = unhex(args[0]);
+            let mut buf = GenericArray::<u8, G::Size>::default();
+            if b.len() != buf.len() {
+                return "err".into();
+            }
+            buf.copy_from_slice(&b);
+            match G::deserialize(&buf) {
+                Ok(v) => format!("ok {}", v.as_u128()),
+                Err(_) => "err".into(),
+            }
+        }
+        "fromslice" => {
+            let b = unhex(args[0]);
+            match <G as TryFrom<&[u8]>>::try_from(b.as_slice()) {
+                Ok(v) => format!("ok {}", v.as_u128()),
+                Err(_) => "err".into(),
+            }
+        }
+        "cmp" => match e(args[0]).cmp(&e(args[1])) {
+            std::cmp::Ordering::Less => "0".into(),
+            std::cmp::Ordering::Equal => "1".into(),
+            std::cmp::Ordering::Greater => "2".into(),
+        },
+        _ => panic!("harness: unknown op {op}"),
+    }
+}
+
 pub fn exec(req: &str) -> String {
     let t: Vec<&str> = req.split(' ').collect();
     match t[0] {
+        "c08.gf" => match t[1] {
+            "Gf2" => exec_gf::<Gf2>(t[2], &t[3..]),
+            "Gf3Bit" => exec_gf::<Gf3Bit>(t[2], &t[3..]),
+            "Gf8Bit" => exec_gf::<Gf8Bit>(t[2], &t[3..]),
+            "Gf9Bit" => exec_gf::<Gf9Bit>(t[2], &t[3..]),
+            "Gf20Bit" => exec_gf::<Gf20Bit>(t[2], &t[3..]),
+            "Gf32Bit" => exec_gf::<Gf32Bit>(t[2], &t[3..]),
+            "Gf40Bit" => exec_gf::<Gf40Bit>(t[2], &t[3..]),
+            f => panic!("harness: unknown binary field {f}"),
+        },
         "c08.pf" => match t[1] {
             "Fp31" => exec_pf::<Fp31>(t[2], &t[3..]),
             "Fp32BitPrime" => exec_pf::<Fp32BitPrime>(t[2], &t[3..]),
@@ -267,6 +352,162 @@ fn verif_c08_prime() {
             gen_pf(rng, thorough, &mut out, "Fp31", u128::from(Fp31::PRIME), Fp31::BITS, 1);
             gen_pf(rng, thorough, &mut out, "Fp32BitPrime", u128::from(Fp32BitPrime::PRIME), Fp32BitPrime::BITS, 4);
             gen_pf(rng, thorough, &mut out, "Fp61BitPrime", u128::from(Fp61BitPrime::PRIME), Fp61BitPrime::BITS, 8);
+            out
+        },
+        exec,
+    );
+}
+
+// GF(2)[x] remainder / quotient on bit patterns (harness-side search for factors of POLYNOMIAL).
+fn poly_divmod(mut a: u128, m: u128) -> (u128, u128) {
+    let dm = 127 - m.leading_zeros();
+    let mut q = 0u128;
+    while a != 0 && 127 - a.leading_zeros() >= dm {
+        let s = (127 - a.leading_zeros()) - dm;
+        q ^= 1 << s;
+        a ^= m << s;
+    }
+    (q, a)
+}
+
+fn gen_gf(rng: &mut Rng, thorough: bool, out: &mut Vec<String>, name: &str, bits: u32, poly: u128, bytes: usize) {
+    let f = name;
+    let n: u128 = 1u128 << bits;
+    let mask = n - 1;
+    // negation side of the field certificate: every factor of POLYNOMIAL of degree <= 12 gives the
+    // zero-divisor pair (factor, cofactor), tried first on the real code.
+    if bits >= 2 {
+        for cand in 2u128..(1u128 << 13.min(bits)) {
+            let (q, r) = poly_divmod(poly, cand);
+            if r == 0 && cand != 1 && q != 1 {
+                out.push(format!("c08.gf {f} mul {cand} {q}"));
+                out.push(format!("c08.gf {f} mul {q} {cand}"));
+            }
+        }
+    }
+    let mut boundary: Vec<u128> = vec![0, 1, 2, 3, mask, mask - 1 & mask, mask >> 1, (mask >> 1) + 1, poly & mask, (poly >> 1) & mask];
+    for j in 0..bits {
+        boundary.push(1u128 << j);
+        boundary.push(((1u128 << j) + 1) & mask);
+        boundary.push(((1u128 << j).wrapping_sub(1)) & mask);
+    }
+    boundary.sort_unstable();
+    boundary.dedup();
+    let exhaustive_pairs = bits <= 8;
+    let elems: Vec<u128> = if bits <= 9 {
+        (0..n).collect()
+    } else {
+        let mut v = boundary.clone();
+        for _ in 0..(if thorough { 400 } else { 60 }) {
+            v.push(rng.next_u128() & mask);
+        }
+        v
+    };
+    for &a in &elems {
+        out.push(format!("c08.gf {f} neg {a}"));
+        if bits > 9 || a % 8 == 0 {
+            out.push(format!("c08.gf {f} mul {a} {a}"));
+        }
+    }
+    let mut pairs: Vec<(u128, u128)> = vec![];
+    if exhaustive_pairs {
+        for a in 0..n {
+            for b in 0..n {
+                pairs.push((a, b));
+            }
+        }
+    } else {
+        let cap = if thorough { 40_000 } else { 2_500 };
+        'outer: for &x in &boundary {
+            for &y in &boundary {
+                if pairs.len() >= cap {
+                    break 'outer;
+                }
+                if x < 4 || y < 4 || x + 4 > mask || y + 4 > mask || (x ^ y) % 5 == 0 {
+                    pairs.push((x, y));
+                }
+            }
+        }
+        for _ in 0..(if thorough { 20_000 } else { 1_500 }) {
+            pairs.push((rng.next_u128() & mask, rng.next_u128() & mask));
+        }
+        if bits == 9 && thorough {
+            for a in 0..n {
+                for b in 0..n {
+                    pairs.push((a, b));
+                }
+            }
+        }
+    }
+    let dense = pairs.len() > 10_000;
+    for (i, &(a, b)) in pairs.iter().enumerate() {
+        out.push(format!("c08.gf {f} mul {a} {b}"));
+        if !dense || i % 7 == 0 || a < 2 || b < 2 {
+            out.push(format!("c08.gf {f} add {a} {b}"));
+            out.push(format!("c08.gf {f} sub {a} {b}"));
+        }
+        if i % 16 == 0 {
+            out.push(format!("c08.gf {f} mulassign {a} {b}"));
+            out.push(format!("c08.gf {f} addassign {a} {b}"));
+            out.push(format!("c08.gf {f} subassign {a} {b}"));
+            out.push(format!("c08.gf {f} cmp {a} {b}"));
+        }
+    }
+    // conversions from u128
+    let mut vs: Vec<u128> = vec![0, 1, mask, n, n + 1, 2 * n - 1, u128::MAX, u128::MAX - 1, u128::MAX / 2];
+    for j in 0..128u32 {
+        let x = 1u128 << j;
+        vs.extend_from_slice(&[x, x - 1, x.wrapping_add(1), x | mask, x | (mask >> 1)]);
+    }
+    for _ in 0..(if thorough { 1_000 } else { 60 }) {
+        vs.push(rng.next_u128());
+        vs.push(rng.next_u128() >> (rng.below(128) as u32));
+    }
+    vs.sort_unstable();
+    vs.dedup();
+    for v in &vs {
+        out.push(format!("c08.gf {f} trunc {v}"));
+        out.push(format!("c08.gf {f} tryfrom {v}"));
+    }
+    // raw store patterns: every byte pattern for one-byte stores, else boundaries + random
+    let max_store: u128 = (1u128 << (8 * bytes)) - 1;
+    let mut raws: Vec<u128> = if bytes == 1 {
+        (0..=255).collect()
+    } else {
+        let mut r = vec![0, 1, mask, n, n + 1, n | 1, max_store, max_store - 1, mask ^ max_store];
+        for j in bits..(8 * bytes as u32) {
+            r.push(1u128 << j);
+            r.push((1u128 << j) | (rng.next_u128() & mask));
+        }
+        r
+    };
+    for _ in 0..(if thorough { 400 } else { 40 }) {
+        raws.push(rng.next_u128() & max_store);
+        raws.push(rng.next_u128() & mask);
+    }
+    for r in raws {
+        out.push(format!("c08.gf {f} deser {}", hex(&r.to_le_bytes()[..bytes])));
+    }
+    out.push(format!("c08.gf {f} deser {}", hex(&vec![0u8; bytes + 1])));
+    for len in 0..=(bytes + 1) {
+        out.push(format!("c08.gf {f} fromslice {}", hex(&rng.bytes(len))));
+        out.push(format!("c08.gf {f} fromslice {}", hex(&vec![0xffu8; len])));
+    }
+}
+
+#[test]
+fn verif_c08_gf() {
+    run_suite(
+        "c08_gf",
+        |rng, thorough| {
+            let mut out = vec![];
+            gen_gf(rng, thorough, &mut out, "Gf2", Gf2::BITS, Gf2::POLYNOMIAL, 1);
+            gen_gf(rng, thorough, &mut out, "Gf3Bit", Gf3Bit::BITS, Gf3Bit::POLYNOMIAL, 1);
+            gen_gf(rng, thorough, &mut out, "Gf8Bit", Gf8Bit::BITS, Gf8Bit::POLYNOMIAL, 1);
+            gen_gf(rng, thorough, &mut out, "Gf9Bit", Gf9Bit::BITS, Gf9Bit::POLYNOMIAL, 2);
+            gen_gf(rng, thorough, &mut out, "Gf20Bit", Gf20Bit::BITS, Gf20Bit::POLYNOMIAL, 3);
+            gen_gf(rng, thorough, &mut out, "Gf32Bit", Gf32Bit::BITS, Gf32Bit::POLYNOMIAL, 4);
+            gen_gf(rng, thorough, &mut out, "Gf40Bit", Gf40Bit::BITS, Gf40Bit::POLYNOMIAL, 5);
             out
         },
         exec,
